@@ -38,7 +38,7 @@ def pair(draw, m, t, fields, allow_none):
     base = m.basetype(t)
     longer = [x for x in m.types if m.basetype(x) == base and m.keys(x)[:len(keys)] == keys and len(m.keys(x)) > len(keys)]
     kind = draw(st.sampled_from(["existing-valid", "existing-valid", "existing-invalid", "existing-search", "deeper",
-                                 "deeper", "gap", "foreign", "unknown", "none-present", "none-absent"]))
+                                 "deeper", "gap", "foreign", "unknown", "none-present", "none-absent", "colon-value"]))
     if kind.startswith("none") and not allow_none:
         kind = "existing-valid"
     optional = draw(st.sampled_from([False, False, True])) and not kind.startswith("none")
@@ -64,6 +64,11 @@ def pair(draw, m, t, fields, allow_none):
             v = draw(gens.value(m.specs[(x, k)], 0.2))
         else:
             k, v = "nokey", "x"
+    elif kind == "colon-value":
+        # ':' is uri syntax only BEFORE the query: inside a query value it is plain text
+        free = [kk for kk in keys if m.specs[(t, kk)].free] + ["nokey"]
+        k = draw(st.sampled_from(free))
+        v = draw(st.sampled_from(["x:y", "12:30", ":", "a:"]))
     elif kind == "none-present":
         k, v = draw(st.sampled_from(keys)), None
     elif kind == "none-absent":
@@ -90,7 +95,7 @@ def cases(draw):
     n = 1 if form == "key_value" else draw(st.integers(1, 3))
     pairs = [draw(pair(m, t, f, allow_none=form in ("kwargs", "key_value"))) for _ in range(n)]
     use_uri = draw(st.booleans())
-    return {"s": s, "form": form, "pairs": pairs, "use_uri": use_uri}
+    return {"s": s, "form": form, "pairs": pairs, "use_uri": use_uri, "warm": draw(st.integers(0, 2)) == 0}
 
 
 def evaluate(case) -> Outcome:
@@ -117,6 +122,13 @@ def evaluate(case) -> Outcome:
             out.label("empty-query")
             return out
         q = "&".join(f"{k}={v}" for k, v in qpairs)
+        if case.get("warm"):
+            # the same query text was used by a search before (searches parse, expand and re-serialise queries):
+            # applying it to a Sid must not depend on that
+            from spil.sid.read.tools import unfold_search
+            call(unfold_search, "/".join("*" for _ in s.split("/")) + "?" + q)
+            call(unfold_search, s.split("/")[0] + "/**?" + q)
+            out.label("warm-up-search-with-same-query")
         if form == "string":
             text = (sid.uri if case.get("use_uri") else s) + "?" + q
             ok, r = call(Sid, text)
